@@ -117,7 +117,7 @@ pub fn run(cfg: &RunCfg) -> Ctx {
         let o: Vec<bool> = (0..rng.urange(0, 8)).map(|_| rng.chance(3, 5)).collect();
         let p: Vec<Op> = (0..rng.urange(1, 10)).map(|_| match rng.below(9) { 0 | 1 => Op::Kill, 2 => Op::TwoCalls, 3 => Op::Pair, 4 => Op::CallKilled, _ => Op::Call }).collect();
         // endpoint options that select other code paths of the channel construction
-        let opts = rng.below(16) as u32;
+        let opts = rng.below(16) as u32 | if rng.chance(1, 8) { 0x101 } else { 0 };
         scenario(rng, ctx, lazy, o, p, opts);
     }));
     if !crate::ctx::small() {
@@ -132,10 +132,18 @@ pub fn run(cfg: &RunCfg) -> Ctx {
     all.floor("model.kills", 10);
     all.floor("model.calls_killed_in_flight", 5);
     all.floor("model.concurrent_pairs", 10);
+    all.floor("model.dead_on_arrival_peer", 5);
     all
 }
 
 fn scenario(rng: &mut Rng, ctx: &mut Ctx, lazy: bool, outcomes: Vec<bool>, ops: Vec<Op>, opts: u32) {
+    // sampled scripts only (opts != 0): one in eight runs against a peer whose connections are
+    // dead on arrival
+    let drop_mode = opts != 0 && opts & 0x100 != 0;
+    let outcomes = if drop_mode { vec![true; 4000] } else { outcomes };
+    if drop_mode {
+        ctx.count("model.dead_on_arrival_peer");
+    }
     if opts & 1 != 0 {
         ctx.count("opt.connect_timeout");
     }
@@ -145,6 +153,8 @@ fn scenario(rng: &mut Rng, ctx: &mut Ctx, lazy: bool, outcomes: Vec<bool>, ops: 
     let seed = rng.u64();
     let pcfg = if rng.bool() { PipeCfg::plain() } else { PipeCfg::gen(rng) };
     let rt = paused_rt();
+    let conn_count = Arc::new(std::sync::atomic::AtomicU64::new(0));
+    let conn_count2 = conn_count.clone();
     let unready = Arc::new(std::sync::atomic::AtomicU64::new(0));
     let unready2 = unready.clone();
     let mut states: Vec<String> = Vec::new();
@@ -161,15 +171,28 @@ fn scenario(rng: &mut Rng, ctx: &mut Ctx, lazy: bool, outcomes: Vec<bool>, ops: 
         let connector = tower::service_fn(move |_uri: http::Uri| {
             let st = st2.clone();
             let tx = conn_tx.clone();
+            let cc = conn_count2.clone();
             async move {
                 let mut s = st.lock().unwrap();
                 s.invocations += 1;
+                cc.fetch_add(1, std::sync::atomic::Ordering::SeqCst);
+                if s.invocations > 2000 {
+                    // a reconnect storm: refuse, so that the run ends and the count is reported
+                    s.consumed.push(false);
+                    return Err(std::io::Error::other("verif: connector invoked more than 2000 times"));
+                }
                 let ok = s.outcomes.pop_front().unwrap_or(false);
                 s.consumed.push(ok);
                 if ok {
                     s.pipes += 1;
                     let (a, b, h) = pipe(&format!("p{}", s.pipes), pcfg, Rng::new(seed ^ s.pipes), None);
-                    let _ = tx.send(Ok(b));
+                    if drop_mode {
+                        // the peer accepts and hangs up at once (a dying load balancer): the
+                        // connector succeeded, the connection is dead on arrival
+                        drop(b);
+                    } else {
+                        let _ = tx.send(Ok(b));
+                    }
                     s.live = Some(h);
                     Ok::<_, std::io::Error>(TokioIo::new(a))
                 } else {
@@ -228,6 +251,22 @@ fn scenario(rng: &mut Rng, ctx: &mut Ctx, lazy: bool, outcomes: Vec<bool>, ops: 
         handler.set_script("slow", crate::svc::Script { latency_ms: 50, ..Default::default() });
         let mut had_failure = false;
         let mut call_no = 0;
+        if drop_mode {
+            // no model here: whatever the channel makes of such a peer, every call gets an answer
+            // (not Ok: nobody serves) in bounded time and bounded connection attempts
+            for i in 0..ops.len().min(4) {
+                let r = tokio::time::timeout(Duration::from_secs(60), client.unary(tonic::Request::new(Msg { data: vec![9], seq: i as u64, tag: String::new() }))).await;
+                match r {
+                    Err(_) => return Err(("hang".into(), format!("call {} did not resolve within 60 virtual seconds against a peer that accepts connections and drops them at once", i + 1))),
+                    Ok(Ok(_)) => return Err(("ok-without-connection".into(), "a call succeeded although every connection is dropped by the peer on arrival".into())),
+                    Ok(Err(_)) => states.push("dead-on-arrival".into()),
+                }
+                quiesce().await;
+            }
+            drop(client);
+            server.abort();
+            return Ok(());
+        }
         for op in &ops {
             match op {
                 Op::Kill => {
@@ -410,6 +449,9 @@ fn scenario(rng: &mut Rng, ctx: &mut Ctx, lazy: bool, outcomes: Vec<bool>, ops: 
     drop(rt);
     if let Err((dev, what)) = res {
         ctx.violation(&dev, what);
+    }
+    if conn_count.load(std::sync::atomic::Ordering::SeqCst) > 2000 {
+        ctx.violation("reconnect-storm", "the channel invoked its connector more than 2000 times in one short script".into());
     }
     if unready2.load(std::sync::atomic::Ordering::SeqCst) > 0 {
         ctx.violation("connector-called-unready", format!("the connector was called {} time(s) without a preceding poll_ready that returned Ready(Ok) (a connector that relies on tower's contract panics there and the channel dies)", unready2.load(std::sync::atomic::Ordering::SeqCst)));
